@@ -16,6 +16,12 @@ def handle (op : String) (a r : Json) : Except String Reply := do
   match op with
   | "cycle" =>
     if let some e := optField r "error" then throw s!"harness error: {e.compress}"
+    if let some e := optField r "restart_failed" then
+      -- the node does not come back on its data directory: nothing is listed, every query blocks
+      pure { m := jObj [("units", jArr [])], prop := some false,
+             why := s!"started again on the same data directory, the node never became ready ({e.compress}): no unit is listed and no query is answered",
+             sig := "C04/node-does-not-come-back" }
+    else
     let units := (getArr r "units").toOption.getD []
     let role := (getStr a "role").toOption.getD ""
     let mut ms : List Json := []
